@@ -707,9 +707,10 @@ impl Update {
         } else {
             Vec::new()
         };
-        // Update the rows.
-        for value_refs in rows.iter_mut() {
-            let should_update = match self.condition {
+        // Determine which rows to update.
+        let should_update: Vec<bool> = rows
+            .iter()
+            .map(|value_refs| match self.condition {
                 Some(ref expr) => {
                     let values: Vec<Value> = value_refs
                         .iter()
@@ -719,8 +720,53 @@ impl Update {
                     expr.eval(&row).to_bool()
                 }
                 None => true,
-            };
-            if should_update {
+            })
+            .collect();
+        // If primary key columns are being updated, make sure that the keys
+        // will still be unique afterwards (before changing anything).
+        let key_indices = table.primary_key_indices();
+        let updates_keys = updates.iter().any(|(column_name, _)| {
+            table.get_column(column_name).unwrap().is_primary_key()
+        });
+        let updated_keys = |value_refs: &Vec<ValueRef>,
+                            is_updated: bool,
+                            string_pool: &StringPool|
+         -> Vec<Value> {
+            key_indices
+                .iter()
+                .map(|&index| {
+                    let update = updates.iter().rev().find(|(name, _)| {
+                        table.index_for_column_name(name) == Some(index)
+                    });
+                    match update {
+                        Some((_, value)) if is_updated => value.clone(),
+                        _ => value_refs[index].to_value(string_pool),
+                    }
+                })
+                .collect()
+        };
+        if updates_keys {
+            let mut keys_set = HashSet::<Vec<Value>>::new();
+            for (value_refs, &is_updated) in
+                rows.iter().zip(should_update.iter())
+            {
+                let keys = updated_keys(value_refs, is_updated, string_pool);
+                if keys_set.contains(&keys) {
+                    already_exists!(
+                        "Update would give multiple rows in table {:?} the \
+                         key {:?}",
+                        self.table_name,
+                        keys
+                    );
+                }
+                keys_set.insert(keys);
+            }
+        }
+        // Update the rows.
+        for (value_refs, &is_updated) in
+            rows.iter_mut().zip(should_update.iter())
+        {
+            if is_updated {
                 for (column_name, value) in updates.iter() {
                     let index =
                         table.index_for_column_name(column_name).unwrap();
@@ -729,6 +775,12 @@ impl Update {
                     *value_ref = ValueRef::create(value.clone(), string_pool);
                 }
             }
+        }
+        // Keep the rows sorted by primary key.
+        if updates_keys {
+            rows.sort_by_cached_key(|value_refs| {
+                updated_keys(value_refs, false, string_pool)
+            });
         }
         // Write the table back out to the file.
         let stream = comp.create_stream(&stream_name)?;
